@@ -17,6 +17,15 @@ sys.path.insert(0, os.path.dirname(os.path.abspath(__file__)))
 
 
 def main(argv) -> int:
+    # rdflib containers iterate in hash order: pin the hash seed so that a run is a pure function of VERIF_SEED
+    if os.environ.get("PYTHONHASHSEED") is None:
+        seed = os.environ.get("VERIF_SEED", "1") or "1"
+        try:
+            hs = str(int(seed) % 4294967295)
+        except ValueError:
+            hs = "1"
+        os.environ["PYTHONHASHSEED"] = hs
+        os.execv(sys.executable, [sys.executable, os.path.abspath(__file__), *argv])
     try:
         from vlib import env  # noqa: F401  (import discipline first)
         from vlib import harness
